@@ -13,6 +13,11 @@ from .common import K, Mode
 NWAVES = {'RCR': 5, 'RCS': 4, 'SCR': 4, 'SCS': 3}
 
 
+def K_of(cx, fr):
+    from symx.engine import SymReal
+    return SymReal(T.const(Fraction(fr))) if cx.symbolic else float(Fraction(fr))
+
+
 def _interp(x, xp, fp):
     if isinstance(x, SymReal) or any(isinstance(v, SymReal) for v in list(xp) + list(fp)):
         return sym_interp(x, xp, fp)
@@ -178,6 +183,23 @@ class Assembly(Obligation):
                 if contact and nm in ('density', 'energy'):
                     continue            # AT the contact the density is either side's by convention
                 cx.eq('%s at wave position %d of %s' % (nm, i, pat), a, b)
+        # EOS closure of what is returned AT each wave position, with the adiabatic index of the side the state belongs to
+        # (C03); JWL flag: the JWL form stated here independently of utils.JWL_f
+        gl_, gr_ = K_of(cx, self.gl), K_of(cx, self.gr)
+        ic = 2 if pat[0] == 'R' else 1
+        for i in range(cx['nX']):
+            if i == ic:
+                continue                # AT the contact the density is either side's
+            g_ = gl_ if i < ic else gr_
+            p_, r_, e_ = cx['X%d_p' % i], cx['X%d_r' % i], cx['X%d_e' % i]
+            if self.problem == 'igeos':
+                cx.eq('EOS at wave position %d: p = (gamma-1) rho e' % i, p_, (g_ - 1) * r_ * e_)
+            else:
+                A, B, R1, R2, r0 = (cx.p(n) for n in ('A', 'B', 'R1', 'R2', 'r0'))
+                v = r0 / r_
+                jwl = A * (1 - (g_ - 1) / (R1 * v)) * cx.fn('exp', -R1 * v) + B * (1 - (g_ - 1) / (R2 * v)) * cx.fn('exp', -R2 * v)
+                cx.eq('EOS at wave position %d: JWL form p = A(1-w/(R1 V))e^(-R1 V) + B(1-w/(R2 V))e^(-R2 V) + w rho e' % i,
+                      p_, jwl + (g_ - 1) * r_ * e_)
         # fan nodes: the node of the rarefaction table sits on its own characteristic x = xd0 + t (u -/+ c)
         for side, idx in (('L', 0), ('R', 2)):
             if pat[idx] != 'R':
